@@ -905,7 +905,7 @@ func Run(c *hx.Ctx) {
 	probeReturns(c, probeNonPositive(0), 30*time.Second)
 	probeReturns(c, probeNonPositive(-1), 30*time.Second)
 
-	concurrentOracle(c, concJob{Seed: c.Seed, G: 6, Rounds: c.N(1500, 15000), BudgetMs: c.N(1600, 12000), Size: 20})
+	concurrentOracle(c, concJob{Seed: c.Seed, G: 6, Rounds: c.N(3000, 30000), BudgetMs: c.N(1800, 15000), Size: 20})
 
 	n := c.N(300, 4000)
 	kinds := []string{"random", "close", "close", "deep", "churn", "full", "close"}
